@@ -12,6 +12,11 @@ import (
 )
 
 func (s *Server) WorkspaceSymbol(ctx context.Context, params *protocol.WorkspaceSymbolParams) ([]protocol.SymbolInformation, error) {
+	// a feature switched off in the configuration answers nothing, also when it
+	// was switched off after the capabilities were announced
+	if !s.getSettings().Features.WorkspaceSymbol {
+		return nil, nil
+	}
 	query := strings.ToLower(params.Query)
 
 	var symbols []protocol.SymbolInformation
